@@ -21,17 +21,24 @@ REGISTRY = {
             'mayWriteGlobal p = [] no global object changes version; histories of any length of such programs leave every '
             'caller-owned object unchanged, so a later query returns what it returns on fresh arguments; a summary table closed '
             'under the bodies bounds real nested execution of calls (nested_calls_bounded); per generated function the obligation '
-            'mayWriteIn = [] is decided by the kernel over the regenerated module (generated_queries_pure, end to end in '
-            'generated_query_frame), editors write only their own object, getters and special methods are pure, summaries and '
-            'tables are checked closed, and every member of the API surface is analysed or explicitly declared outside. Dynamic tie: every API member is called on '
+            'write set = [] is decided by the kernel (generated_queries_pure, end to end in generated_query_frame), editors write '
+            'only their own object, getters and special methods are pure, and - no-shared-state clause - the result of every '
+            'non-editor member is proved fresh (mayShareIn_sound, generated_results_fresh, generated_result_frame: the returned '
+            'object and everything below it is allocated by the call or is a record the caller handed in), with an explicit '
+            'declaredSharing list; no API member may write or hand back a modification database (generated_db_untouched, '
+            'db_editors_are_flagged for non-vacuity); the generated model is one Lean file + one kernel check per Python source '
+            'module (tables closed, summaries closed, verdicts as claimed), assembled and tied back by generated_verdicts_correct; '
+            'every member of the API surface is analysed or explicitly declared outside. Dynamic tie: every API member is called on '
             'a dozen annotation shapes with all modification kinds; arguments, random.getstate() and the EntryDb maps are '
             'snapshotted around every call, every returned container/annotation is edited and the arguments re-snapshotted, '
             'history independence is run exhaustively over ordered pairs and randomly over triples; the set of functions observed '
-            'writing an argument must be contained in the set the Lean analysis flags',
+            'writing an argument, and the set of functions whose result was observed sharing state with an argument, must be '
+            'contained in the sets the Lean analysis flags',
     'note': 'trusted: Lean kernel; the translator\'s classification of Python statements into IR statements (which method names '
             'mutate, which expressions copy deeply/shallowly/alias), its SSA renaming, inplace specialisation and call resolution; '
-            'the lumping of everything below a parameter into one abstract object; object identity of results is checked only '
-            'dynamically; records handed in by the '
+            'the lumping of everything below a parameter into one abstract object; static types are trusted for casts (a value '
+            'annotated as Mod/Interval/Fragment is a record, a container annotated with scalar elements holds nothing mutable, a '
+            'function annotated to return a number or string returns nothing shared); records handed in by the '
             'caller (Mod, Interval, Fragment) may be handed back by reference; field accessors and create_multi_annotation '
             '(aggregate of its arguments) are outside the no-shared-state clause; unseeded shuffle() is random by contract',
     'technique': 'Lean 4 proof about a regenerated effect model + dynamic snapshot/alias/history checks',
@@ -75,6 +82,20 @@ def _record(chk, name, res_list, key_prefix):
 
 
 def run(chk):
+    # the generated Lean modules depend on the repository under check (VERIF_REPO): concurrent C08 runs against different
+    # trees would overwrite each other's Generated/Effects files, so a C08 run holds this lock from translation to the end
+    import fcntl
+    os.makedirs(os.path.join(core.LEAN, '.lake'), exist_ok=True)
+    lock = open(os.path.join(core.LEAN, '.lake', 'c08-run.lock'), 'w')
+    fcntl.flock(lock, fcntl.LOCK_EX)
+    try:
+        return _run(chk)
+    finally:
+        fcntl.flock(lock, fcntl.LOCK_UN)
+        lock.close()
+
+
+def _run(chk):
     import peptacular  # noqa
     import time as _t
     _t0 = [_t.time()]
@@ -164,6 +185,9 @@ def run(chk):
     _record(chk, 'pairs_exhaustive', res, 'pairs')
     phase('pairs')
     chk.exhaustive = True
+    res = _pool_map(D.task_fragmenter, pair_shapes, procs)
+    _record(chk, 'fragmenter_object_histories', res, 'fragmenter')
+    phase('fragmenter')
     ntrip = 4000 if tier == 'quick' else 200000
     if chk.broken():
         ntrip *= 2
@@ -206,7 +230,7 @@ def _parse_verdict(r):
 
 def _static_compare(chk, st, observed, info):
     """the Lean analysis verdict per API member (through the driver) against what was observed"""
-    surface = D.api_surface()
+    surface = D.api_surface(all_public=True)
     names = [a for a, _ in surface] + ['Fragmenter']
     variants = []
     for n in names:
@@ -292,6 +316,8 @@ def _static_compare(chk, st, observed, info):
                    line_of, impl_share, compare=cmp_share, nontrivial_fn=lambda c, im: bool(im))
     chk.notes.append('observed result/argument sharing per API variant (edit-the-result step): ' +
                      json.dumps({k: sorted(v) for k, v in share_by_variant.items()}))
+    chk.notes.append('process-wide objects any API member (editors, random and declared-outside members included) may write, by name: ' +
+                     json.dumps({n: v['globals'] for n, v in verdict.items() if v['globals']}))
     chk.notes.append('flagged as possibly sharing by the analysis: ' + json.dumps(
         {n: v['share'] + v['shareglobals'] for n, v in verdict.items() if v['share'] or v['shareglobals']}))
     r_flagged = {n: v for n, v in verdict.items() if not v['editor'] and (v['share'] or v['shareglobals'])
